@@ -128,7 +128,10 @@ func stripConv(v ssa.Value) ssa.Value {
 	}
 }
 
-var printEntryPoints = []string{"Sprint", "Sprintf", "Fprint", "Fprintf", "HelperForErrorf", "Sprintfn", "EscapeBytes"}
+// the public functions of the root package that are forwards to an internal
+// package on the pinned tree (confirmed by reading): each must stay one
+var printEntryPoints = []string{"Sprint", "Sprintf", "Fprint", "Fprintf", "HelperForErrorf", "Sprintfn", "EscapeBytes",
+	"EscapeMarkers", "StartMarker", "EndMarker", "RedactedMarker", "Safe", "Unsafe", "MakeFormat", "RegisterSafeType", "RegisterRedactErrorFn"}
 
 // ruleC16a: the S/F entry points follow one protocol around doPrint*, and the
 // public façade forwards to them unchanged.
@@ -238,7 +241,23 @@ func ruleC16a(c *Ctx) []*report.Result {
 					}
 				}
 			}
-			if must && !strings.HasSuffix(target, "."+fn.Name()) && !sameProtocol {
+			// an internal function that was renamed has no homonym left in its
+			// package: then only purity is required (a forward to the wrong
+			// SIBLING, whose homonym still exists, is reported)
+			homonymExists := false
+			for _, b := range fn.Blocks {
+				for _, ins := range b.Instrs {
+					if ci, ok := ins.(*ssa.Call); ok {
+						if g := ci.Common().StaticCallee(); g != nil && g.Pkg != nil && g.Pkg.Func(fn.Name()) != nil {
+							homonymExists = true
+						}
+					}
+				}
+			}
+			if _, known := want[fn.Name()]; known {
+				homonymExists = true
+			}
+			if must && !strings.HasSuffix(target, "."+fn.Name()) && !sameProtocol && homonymExists {
 				r.Fail("redact."+fn.Name()+" / forward target", c.P.Pos(fn.Pos()), "forwards to "+target+" instead of the function of the same name", nil, "")
 			}
 		} else if must {
@@ -365,7 +384,13 @@ func ruleC16c(c *Ctx) []*report.Result {
 		}
 		pos := c.P.Pos(fn.Pos())
 		// helpers of the builder are read in place
-		fl := flatten(fn, func(g *ssa.Function) bool { return c.P.InModule(g) && recvNamed(g) == tBuilder })
+		fl := flatten(fn, func(g *ssa.Function) bool {
+			if !c.P.InModule(g) {
+				return false
+			}
+			// methods of the builder, and unexported functions of its package
+			return recvNamed(g) == tBuilder || (g.Pkg == fn.Pkg && g.Signature.Recv() == nil && g.Object() != nil && !g.Object().Exported())
+		})
 		calls := fl.calls
 		if !fl.straight {
 			calls = nil
